@@ -573,7 +573,7 @@ def get_attr(I, o: Any, attr: str, st: State) -> Iterator[tuple[State, Any]]:
 
                     yield st, const_to_sym(consts[f"{c.name}.{attr}"])
                     return
-        if o.cls in ("str",):
+        if o.cls in ("str", "sha256", "bytes", "datetime"):
             yield st, SBound(o, attr)
             return
         hook = getattr(I, "attr_hook", None)
